@@ -119,6 +119,14 @@ CLAIMED.update({
         design="DESIGN.md section 5, C08"),
 })
 
+CLAIMED.update({
+    "C16": dict(
+        text="Partial: panic-freedom of the functions under contract. Every Verus unit generates the implicit side conditions of its real text (debug-profile arithmetic overflow, index bounds, unwrap, unreachable!, slicing) and they are discharged under the stated preconditions; named obligations cover the calculator (every operator returns Ok or Err for all i32 operands and propagates failed operands instead of unwrapping: Kani), the parse-error arm of compile() for an empty line table, error locations at offset 0, asm()'s acceptance condition (exactly when it returns Err), push_code on an undefined callee, undefine on an absent name.",
+        note="NOT decided: the several hundred unwrap/unreachable!/index sites of the pest-tree walkers and of the rest of the generator, stack depth on deep nesting, and termination in general (check_branches, the closure computation, replace_all on self-referential macros, parse_int on out-of-range literals are known gaps, the last two also known defects that were not repaired). Preconditions of the contracted functions are caller obligations, proved only where a caller unit exists.",
+        technique="contract-based deductive verification (implicit verification conditions of Verus on extracted functions) + Kani full-domain harnesses",
+        design="DESIGN.md section 5, C16"),
+})
+
 NOT_APPLICABLE = {
     "C11": "no contract within reach: the property is about the comment/splice scanner in cpp::process (str::split*/byte slicing without vstd specifications), pest WHITESPACE/COMMENT rules (generated parser) and a relation between two whole compilations",
 }
